@@ -50,6 +50,7 @@ type VRollout struct {
 	Steps     []VStep    `json:"steps"`
 	TRs       []VTraffic `json:"trs,omitempty"`
 	StyleAnno string     `json:"style_anno,omitempty"` // v1alpha1
+	Disabled  bool       `json:"disabled,omitempty"`   // spec.disabled: makes no difference to what is admitted
 }
 type VInput struct {
 	Version   string     `json:"version"` // v1beta1 | v1alpha1
@@ -101,6 +102,7 @@ func vTrafficRefs(trs []VTraffic) []v1beta1.TrafficRoutingRef {
 func vBeta(r VRollout) *v1beta1.Rollout {
 	o := &v1beta1.Rollout{TypeMeta: metav1.TypeMeta{APIVersion: "rollouts.kruise.io/v1beta1", Kind: "Rollout"}, ObjectMeta: metav1.ObjectMeta{Namespace: "ns", Name: r.Name}}
 	o.Spec.WorkloadRef = v1beta1.ObjectRef{APIVersion: r.APIV, Kind: r.Kind, Name: r.WLName}
+	o.Spec.Disabled = r.Disabled
 	var steps []v1beta1.CanaryStep
 	for _, s := range r.Steps {
 		cs := v1beta1.CanaryStep{}
@@ -328,6 +330,7 @@ func genVRollout(r *rand.Rand, name string, valid bool) VRollout {
 		ro.Strategy = pick(r, "none", "both")
 	}
 	ro.Extra = chance(r, 25)
+	ro.Disabled = chance(r, 20)
 	ro.Steps = genVSteps(r, valid)
 	if chance(r, 60) {
 		n := 1
